@@ -142,6 +142,9 @@ type LeaderRevision struct {
 }
 
 func (r *revisionSyncer) singleFlightGetRevisionFromLeader() (uint64, error) {
+	// a flight which is already on its way may bring back a revision older than what leader has committed when this
+	// call begins, so never join it: callers only share a flight which starts after they have arrived
+	r.flight.Forget("get_revision")
 	v, err, _ := r.flight.Do("get_revision", func() (interface{}, error) {
 		// there is no guarantee about the schema of leader, so we just try one by one
 		for _, schema := range r.getRetrySchemas() {
